@@ -3,6 +3,8 @@
 package service
 
 import (
+	"fmt"
+
 	"github.com/mdzio/go-mqtt/message"
 	"github.com/mdzio/go-mqtt/sessions"
 	"github.com/mdzio/go-mqtt/topics"
@@ -22,7 +24,7 @@ var vrtBenchSeq int
 // vrtBroker: a broker with its own (fresh) session and topic stores.
 func vrtBroker(authenticator string) *vrtBench {
 	vrtBenchSeq++
-	name := "vrt" + string(rune('a'+vrtBenchSeq%26)) + string(rune('a'+(vrtBenchSeq/26)%26))
+	name := fmt.Sprintf("vrt%d", vrtBenchSeq)
 	sessions.Register(name, sessions.NewMemProvider())
 	topics.Register(name, topics.NewMemProvider())
 	svr := &Server{BufferSize: 1, SessionsProvider: name, TopicsProvider: name, Authenticator: authenticator}
